@@ -759,6 +759,7 @@ func (fr *Frame) callsiteSpecs(st *State, key string, callee *ssa.Function, args
 		if !(pat == key || strings.HasSuffix(key, pat) && (strings.HasPrefix(pat, ".") || strings.HasPrefix(pat, ")"))) {
 			continue
 		}
+		x.noteMatched(cs.Clause)
 		sc := top.scope(st, top.entry)
 		sc.vars = map[string]Val{}
 		if callee != nil && len(callee.Params) > 0 {
